@@ -215,3 +215,25 @@ Theorem C07_front_end_is_total_under_oracle_fuel_partial : forall intern bytes m
   (forall D ps ty, nf (check_exhaustiveness intern D ps ty)) -> front_end intern bytes main <> FInternal.
 Proof. exact front_end_total_hex. Qed.
 Print Assumptions C07_front_end_is_total_under_oracle_fuel_partial.
+
+(* ... and with a COMPUTABLE premise for programs that do consult the oracle (Check/InferFuel5.v,
+   InferFuel6.v, FrontEndTotalMatch.v): [ty_depth_bound P] bounds the nesting depth of every type the
+   checker can infer in P (declared depths + aggregate-literal nodes per function; 65 if a reachable
+   named type is empty or undefined); at most 64 is what the model's fixed oracle fuel supports. *)
+From GV Require Import Check.InferFuel5 Check.InferFuel6 Check.FrontEndTotalMatch.
+
+Theorem C07_checker_terminates_within_a_computable_fuel : forall intern,
+  (forall a b, intern a = intern b -> a = b) -> forall P fuel,
+  (ty_depth_bound P <= 64)%nat -> (check_fuel_needed P <= fuel)%nat -> check_program_t intern fuel P <> CNoFuel.
+Proof. exact check_terminates_match. Qed.
+Print Assumptions C07_checker_terminates_within_a_computable_fuel.
+
+Theorem C07_front_end_is_total_computable : forall intern bytes main,
+  (forall a b, intern a = intern b -> a = b) ->
+  match parsed_program bytes main with
+  | Some P => no_oracle P || Nat.leb (ty_depth_bound P) 64 = true
+  | None => True
+  end ->
+  front_end intern bytes main <> FInternal.
+Proof. exact front_end_total_computable. Qed.
+Print Assumptions C07_front_end_is_total_computable.
